@@ -280,6 +280,110 @@ def lower_and_then(j, baseline, skip=()):
                               'fields': [], 'union_field': -1}, 'ops': []}, 'line': line}]
             f['blocks'].append({'i': b_bad, 'cleanup': False, 'stmts': bad_stmts, 'term': {'k': 'goto', 'target': t['target']}})
             f['blocks'].append({'i': b_un, 'cleanup': False, 'stmts': [], 'term': {'k': 'unreachable'}})
+            if not t['dest']['p']:
+                rl_ = f.setdefault('ret_locals', [])
+                if t['dest']['l'] not in rl_:
+                    rl_.append(t['dest']['l'])
+            n += 1
+    return n
+
+
+def lower_map_transpose(j, baseline, skip=()):
+    """`opt.map(closure).transpose()` (an optional fallible computation) becomes the matches it abbreviates:
+        None            -> Ok(None)
+        Some(x), f(x) = Ok(v)  -> Ok(Some(v))
+        Some(x), f(x) = Err(e) -> Err(e)
+    with the closure called directly (and then spliced like any directly-called closure), so that what the closure does is read
+    where it happens and its failure is a guard of the caller."""
+    local_fns = {f['path'] for f in j['fns'] if f['label'] == 'fn'}
+    n = 0
+    for f in j['fns']:
+        if f['label'] != 'fn' or f['path'].split('::{closure')[0] in skip:
+            continue
+        closure_of = {}
+        for b in f['blocks']:
+            for s_ in b['stmts']:
+                if s_['k'] == 'assign' and not s_['place']['p'] and s_['rv']['k'] == 'aggregate' and s_['rv']['kind'].get('a') == 'closure':
+                    closure_of[s_['place']['l']] = s_['rv']['kind']['path']
+        byi = {b['i']: b for b in f['blocks']}
+        for b in list(f['blocks']):
+            t = b['term']
+            if t['k'] != 'call' or b.get('cleanup') or t['func'].get('def') != 'std::option::Option::<T>::map' or len(t['args']) != 2:
+                continue
+            o, cl = t['args']
+            if o.get('k') not in ('move', 'copy') or o['place']['p'] or cl.get('k') not in ('move', 'copy') or cl['place']['p'] or cl['place']['l'] not in closure_of:
+                continue
+            nb_ = byi.get(t['target'])
+            if nb_ is None or any(s_['k'] == 'assign' for s_ in nb_['stmts']):
+                continue
+            t2 = nb_['term']
+            if t2['k'] != 'call' or t2['func'].get('def') != 'std::option::Option::<std::result::Result<T, E>>::transpose' or len(t2['args']) != 1:
+                continue
+            a2 = t2['args'][0]
+            if a2.get('k') not in ('move', 'copy') or a2['place']['p'] or a2['place']['l'] != t['dest']['l'] or t['dest']['p'] or t2['dest']['p']:
+                continue
+            g1, g2 = t['func'].get('gargs', []), t2['func'].get('gargs', [])
+            if len(g1) < 2 or len(g2) != 2:
+                continue
+            tpay, tres, tu, te = g1[0], g1[1], g2[0], g2[1]
+            cp = closure_of[cl['place']['l']]
+            line = t.get('span', {}).get('l0', 0)
+            f.setdefault('orig_nlocals', len(f['locals']))
+
+            def newlocal(ty):
+                f['locals'].append({'i': len(f['locals']), 'ty': ty, 'name': None, 'mut': True})
+                return len(f['locals']) - 1
+
+            def pl(l, ty):
+                return {'l': l, 'p': [], 'ty': ty}
+            ol = o['place']['l']
+            dest = copy.deepcopy(t2['dest'])
+            cont = t2['target']
+            ld, lpay, ltup, lr, ld2, lu, lopt, le, lnone = (newlocal('isize'), newlocal(tpay), newlocal('(%s,)' % tpay), newlocal(tres), newlocal('isize'),
+                                                        newlocal(tu), newlocal('std::option::Option<%s>' % tu), newlocal(te), newlocal('std::option::Option<%s>' % tu))
+            nbk = len(f['blocks'])
+            b_some, b_s2, b_ok, b_err, b_none, b_un = nbk, nbk + 1, nbk + 2, nbk + 3, nbk + 4, nbk + 5
+            span = t.get('span')
+            b['stmts'].append({'k': 'assign', 'place': pl(ld, 'isize'), 'rv': {'k': 'discr', 'place': pl(ol, o['place']['ty'])}, 'line': line})
+            b['term'] = {'k': 'switch', 'discr': {'k': 'move', 'place': pl(ld, 'isize')}, 'arms': [['0', b_none], ['1', b_some]], 'otherwise': b_un, 'span': span}
+            pay = {'l': ol, 'p': [{'k': 'downcast', 'variant': 'Some', 'i': 1}, {'k': 'field', 'i': 0, 'name': '0', 'ty': tpay}], 'ty': tpay}
+            func = {'def': 'std::ops::FnOnce::call_once', 'krate': 'core', 'local': False, 'gargs': [], 'trait': 'std::ops::FnOnce', 'res': cp,
+                    'res_krate': '', 'res_local': cp in local_fns, 'res_kind': 'Item'}
+            call = {'k': 'call', 'func': func, 'args': [copy.deepcopy(cl), {'k': 'move', 'place': pl(ltup, '(%s,)' % tpay)}], 'dest': pl(lr, tres), 'target': b_s2,
+                    'unwind': t.get('unwind', 'Continue'), 'span': span}
+            f['blocks'].append({'i': b_some, 'cleanup': False, 'stmts': [
+                {'k': 'assign', 'place': pl(lpay, tpay), 'rv': {'k': 'use', 'op': {'k': 'move', 'place': pay}}, 'line': line},
+                {'k': 'assign', 'place': pl(ltup, '(%s,)' % tpay), 'rv': {'k': 'aggregate', 'kind': {'a': 'tuple'}, 'ops': [{'k': 'move', 'place': pl(lpay, tpay)}]}, 'line': line}],
+                'term': call})
+            f['blocks'].append({'i': b_s2, 'cleanup': False, 'stmts': [
+                {'k': 'assign', 'place': pl(ld2, 'isize'), 'rv': {'k': 'discr', 'place': pl(lr, tres)}, 'line': line}],
+                'term': {'k': 'switch', 'discr': {'k': 'move', 'place': pl(ld2, 'isize')}, 'arms': [['0', b_ok], ['1', b_err]], 'otherwise': b_un, 'span': span}})
+            okp = {'l': lr, 'p': [{'k': 'downcast', 'variant': 'Ok', 'i': 0}, {'k': 'field', 'i': 0, 'name': '0', 'ty': tu}], 'ty': tu}
+            errp = {'l': lr, 'p': [{'k': 'downcast', 'variant': 'Err', 'i': 1}, {'k': 'field', 'i': 0, 'name': '0', 'ty': te}], 'ty': te}
+
+            def adt(path, variant, vidx, fields, ops):
+                return {'k': 'aggregate', 'kind': {'a': 'adt', 'path': path, 'variant': variant, 'vidx': vidx, 'fields': fields, 'union_field': -1}, 'ops': ops}
+            f['blocks'].append({'i': b_ok, 'cleanup': False, 'stmts': [
+                {'k': 'assign', 'place': pl(lu, tu), 'rv': {'k': 'use', 'op': {'k': 'move', 'place': okp}}, 'line': line},
+                {'k': 'assign', 'place': pl(lopt, 'std::option::Option<%s>' % tu), 'rv': adt('std::option::Option', 'Some', 1, ['0'], [{'k': 'move', 'place': pl(lu, tu)}]), 'line': line},
+                {'k': 'assign', 'place': copy.deepcopy(dest), 'rv': adt('std::result::Result', 'Ok', 0, ['0'], [{'k': 'move', 'place': pl(lopt, 'std::option::Option<%s>' % tu)}]), 'line': line}],
+                'term': {'k': 'goto', 'target': cont}})
+            f['blocks'].append({'i': b_err, 'cleanup': False, 'stmts': [
+                {'k': 'assign', 'place': pl(le, te), 'rv': {'k': 'use', 'op': {'k': 'move', 'place': errp}}, 'line': line},
+                {'k': 'assign', 'place': copy.deepcopy(dest), 'rv': adt('std::result::Result', 'Err', 1, ['0'], [{'k': 'move', 'place': pl(le, te)}]), 'line': line}],
+                'term': {'k': 'goto', 'target': cont}})
+            f['blocks'].append({'i': b_none, 'cleanup': False, 'stmts': [
+                {'k': 'assign', 'place': pl(lnone, 'std::option::Option<%s>' % tu), 'rv': adt('std::option::Option', 'None', 0, [], []), 'line': line},
+                {'k': 'assign', 'place': copy.deepcopy(dest), 'rv': adt('std::result::Result', 'Ok', 0, ['0'], [{'k': 'move', 'place': pl(lnone, 'std::option::Option<%s>' % tu)}]), 'line': line}],
+                'term': {'k': 'goto', 'target': cont}})
+            f['blocks'].append({'i': b_un, 'cleanup': False, 'stmts': [], 'term': {'k': 'unreachable'}})
+            # the transpose block is bypassed; keep it (unreachable) so that block numbers stay dense
+            nb_['term'] = {'k': 'unreachable'}
+            rl = f.setdefault('ret_locals', [])
+            for l_ in (lr, dest['l']):
+                if l_ not in rl:
+                    rl.append(l_)
+            byi = {b_['i']: b_ for b_ in f['blocks']}
             n += 1
     return n
 
@@ -314,6 +418,7 @@ def inline_new_helpers(j):
                     elif r in cands:
                         work.append(r)
         lower_and_then(j, baseline, skip)
+        lower_map_transpose(j, baseline, skip | keep)
     info = {'candidates': sorted(cands), 'spliced': {}, 'removed': []}
     fns = {f['path']: f for f in j['fns'] if f['label'] == 'fn'}
     # closures that are called directly (`let fail = |m| Err(..); return fail(..)`) are local helper functions: spliced at the call,
